@@ -247,6 +247,12 @@ def r08b(R):
     cfg = A.cfg(a)
     tests = [n for n in cfg.nodes if n.kind == 'cond'
              and norm(n.ast).startswith('self.%s.acquire(' % lock)]
+    if not tests:
+        held = [norm(n.targets[0]) for n in walk_own(a.node)
+                if isinstance(n, ast.Assign)
+                and norm(n.value).startswith('self.%s.acquire(' % lock)
+                and isinstance(n.targets[0], ast.Name)]
+        tests = [n for n in cfg.nodes if n.kind == 'cond' and norm(n.ast) in held]
     ok = False
     if tests:
         t = tests[0]
@@ -397,9 +403,13 @@ def r08e(R):
              and isinstance(n.ast.targets[0], ast.Subscript)
              and self_attr(n.ast.targets[0].value) == '_background']
     start = A.calls_nodes(spawn, 'Agent.execute')
-    ok = bool(store and start) and all(n.id in hn for n in store + start) and \
+    agv = [norm(n.targets[0]) for n in walk_own(spawn.node)
+           if isinstance(n, ast.Assign) and isinstance(n.value, ast.Call)
+           and norm(n.value.func) == 'Agent' and isinstance(n.targets[0], ast.Name)]
+    ok = bool(store and start and agv) and all(n.id in hn for n in store + start) and \
         cfg.find_path([cfg.entry], lambda n: n in start, avoid=store) is None and \
-        norm(store[0].ast.targets[0].slice) == 'agent.name'
+        norm(store[0].ast.targets[0].slice) == agv[0] + '.name' and \
+        norm(store[0].ast.value) == agv[0]
     R.check(spawn, '_background[agent.name] = agent before agent.execute()', ok,
             'a background agent starts before it is registered: a fast job '
             'finishes first, the removal raises KeyError and the entry stays '
@@ -407,9 +417,10 @@ def r08e(R):
     done = jc.methods['_on_background_done']
     dcfg = A.cfg(done)
     dh = held_nodes(A, done, lock)
+    dparam = done.params[1]
     dels = [n for n in dcfg.nodes if n.kind == 'stmt'
             and isinstance(n.ast, ast.Delete)
-            and norm(n.ast.targets[0]) == 'self._background[agent.name]']
+            and norm(n.ast.targets[0]) == 'self._background[%s.name]' % dparam]
     R.check(done, 'del self._background[agent.name] under the lock',
             len(dels) >= 1 and all(n.id in dh for n in dels),
             'the finished background agent is not removed under the lock by '
